@@ -411,6 +411,36 @@ class PteraTransformer(NodeTransformer):
         ):
             slc = target.slice
             slc = slc.value if isinstance(target.slice, ast.Index) else slc
+            if (
+                not expression
+                and not isinstance(slc, (ast.Constant, ast.Name))
+                and self.should_instrument(target.value.id, ann)
+            ):
+                # The index is needed twice (to report it and to store): it
+                # must be evaluated once, and after the value, as Python does
+                var_value, var_index = _gensym(), _gensym()
+                prelude = [
+                    ast.Assign(
+                        targets=[ast.Name(id=var_value, ctx=ast.Store())],
+                        value=value_arg,
+                        lineno=orig.lineno,
+                        col_offset=orig.col_offset,
+                    ),
+                    ast.Assign(
+                        targets=[ast.Name(id=var_index, ctx=ast.Store())],
+                        value=slc,
+                        lineno=orig.lineno,
+                        col_offset=orig.col_offset,
+                    ),
+                ]
+                value_arg = ast.Name(id=var_value, ctx=ast.Load())
+                slc = ast.Name(id=var_index, ctx=ast.Load())
+                target = ast.Subscript(
+                    value=target.value, slice=slc, ctx=ast.Store()
+                )
+                return prelude + self.make_interaction(
+                    target, ann, value_arg, orig=orig
+                )
             value_args = [
                 target.value.id,
                 self._wrap_call("__ptera_Key", "index", deepcopy(slc)),
